@@ -13,6 +13,7 @@ import (
 	"fmt"
 	"io"
 	"io/fs"
+	"os"
 	"sort"
 	"strings"
 
@@ -46,19 +47,19 @@ type bsim struct {
 	ws   *wsgen.Workspace
 	prop string
 	// perturbations of the current execution
-	permuteWalk   bool
-	permuteMods   bool
-	permuteLists  bool
-	lintUse       []string
-	lintExcept    []string
-	permutePaths  bool
-	faults        bool
-	faultRate     int
-	faultBudget   int
-	cancelAt      int
-	arrival       []string
-	against       map[string]string
-	counters      map[string]int
+	permuteWalk  bool
+	permuteMods  bool
+	permuteLists bool
+	lintUse      []string
+	lintExcept   []string
+	permutePaths bool
+	faults       bool
+	faultRate    int
+	faultBudget  int
+	cancelAt     int
+	arrival      []string
+	against      map[string]string
+	counters     map[string]int
 }
 
 func (m *bsim) violate(oracle, site, format string, args ...any) {
@@ -379,7 +380,11 @@ func Run(tp *tape.Tape, env *engine.Env) *engine.Outcome {
 		// check execution splits files into chunks per worker: needs many files to matter
 		maxFiles = 40
 	}
-	m.ws = wsgen.New(tp, wsgen.Options{MaxModules: 3, MaxFiles: maxFiles, Targeting: true, PlantError: mode == "planted", SupplyWKT: wktContent})
+	unusedHeavy := m.prop == "C01" && mode == "schedule" && tp.Draw("unusedheavy", 3) == 2
+	if os.Getenv("VERIF_FORCE_HEAVY") != "" {
+		mode, unusedHeavy = "schedule", true
+	}
+	m.ws = wsgen.New(tp, wsgen.Options{MaxModules: 3, MaxFiles: maxFiles, Targeting: true, PlantError: mode == "planted", SupplyWKT: wktContent, UnusedHeavy: unusedHeavy})
 	s.Event("case mode=%s modules=%d files=%d targets=%v", mode, len(m.ws.Modules), len(m.ws.Files), m.ws.Targets())
 
 	if m.prop == "C02" {
